@@ -28,7 +28,7 @@ def ndOf : IVer → Str
 
 /-- `string_input().strip().upper()` on ASCII input, then the empty-answer default -/
 def normalize (v : IVer) (answer : Str) : Str :=
-  let a := upper (Float.strip answer)
+  let a := upper (Float.stripStr answer)
   if a = [] then ndOf v else a
 
 /-- which legal value an (already normalised, upper-cased) answer selects:
